@@ -288,4 +288,86 @@ def compiledAttrExpr (negation : Bool) (e : OnAttributesExpr) (m : AttributeMatc
       m.evalOp op { name := makeAsciiLowercase name, value := value, caseSensitivity := cs }
   r.map fun b => if negation then !b else b
 
+/-! ### selectors-0.37 parser.rs:3082-3240 — how the flag and the attribute name pick the case mode -/
+
+/-- parser.rs:3204-3212 `enum AttributeFlags`: `s` flag, `i` flag, no flag. -/
+inductive AttributeFlags where
+  | caseSensitive
+  | asciiCaseInsensitive
+  | caseSensitivityDependsOnName
+  deriving Repr, DecidableEq
+
+/-- selectors-0.37 build.rs `ASCII_CASE_INSENSITIVE_HTML_ATTRIBUTES` (46 names; the list of
+https://html.spec.whatwg.org/multipage/#selectors), as byte strings. -/
+def asciiCaseInsensitiveHtmlAttributes : List Bytes := [
+    [97, 99, 99, 101, 112, 116],  -- accept
+    [97, 99, 99, 101, 112, 116, 45, 99, 104, 97, 114, 115, 101, 116],  -- accept-charset
+    [97, 108, 105, 103, 110],  -- align
+    [97, 108, 105, 110, 107],  -- alink
+    [97, 120, 105, 115],  -- axis
+    [98, 103, 99, 111, 108, 111, 114],  -- bgcolor
+    [99, 104, 97, 114, 115, 101, 116],  -- charset
+    [99, 104, 101, 99, 107, 101, 100],  -- checked
+    [99, 108, 101, 97, 114],  -- clear
+    [99, 111, 100, 101, 116, 121, 112, 101],  -- codetype
+    [99, 111, 108, 111, 114],  -- color
+    [99, 111, 109, 112, 97, 99, 116],  -- compact
+    [100, 101, 99, 108, 97, 114, 101],  -- declare
+    [100, 101, 102, 101, 114],  -- defer
+    [100, 105, 114],  -- dir
+    [100, 105, 114, 101, 99, 116, 105, 111, 110],  -- direction
+    [100, 105, 115, 97, 98, 108, 101, 100],  -- disabled
+    [101, 110, 99, 116, 121, 112, 101],  -- enctype
+    [102, 97, 99, 101],  -- face
+    [102, 114, 97, 109, 101],  -- frame
+    [104, 114, 101, 102, 108, 97, 110, 103],  -- hreflang
+    [104, 116, 116, 112, 45, 101, 113, 117, 105, 118],  -- http-equiv
+    [108, 97, 110, 103],  -- lang
+    [108, 97, 110, 103, 117, 97, 103, 101],  -- language
+    [108, 105, 110, 107],  -- link
+    [109, 101, 100, 105, 97],  -- media
+    [109, 101, 116, 104, 111, 100],  -- method
+    [109, 117, 108, 116, 105, 112, 108, 101],  -- multiple
+    [110, 111, 104, 114, 101, 102],  -- nohref
+    [110, 111, 114, 101, 115, 105, 122, 101],  -- noresize
+    [110, 111, 115, 104, 97, 100, 101],  -- noshade
+    [110, 111, 119, 114, 97, 112],  -- nowrap
+    [114, 101, 97, 100, 111, 110, 108, 121],  -- readonly
+    [114, 101, 108],  -- rel
+    [114, 101, 118],  -- rev
+    [114, 117, 108, 101, 115],  -- rules
+    [115, 99, 111, 112, 101],  -- scope
+    [115, 99, 114, 111, 108, 108, 105, 110, 103],  -- scrolling
+    [115, 101, 108, 101, 99, 116, 101, 100],  -- selected
+    [115, 104, 97, 112, 101],  -- shape
+    [116, 97, 114, 103, 101, 116],  -- target
+    [116, 101, 120, 116],  -- text
+    [116, 121, 112, 101],  -- type
+    [118, 97, 108, 105, 103, 110],  -- valign
+    [118, 97, 108, 117, 101, 116, 121, 112, 101],  -- valuetype
+    [118, 108, 105, 110, 107]  -- vlink
+]
+
+/-- parser.rs:3214-3240 `AttributeFlags::to_case_sensitivity` (`have_namespace` is always `false`
+for the selectors lol-html accepts: namespaced attribute selectors are rejected, parser.rs:174-176
+of lol-html). -/
+def AttributeFlags.toCaseSensitivity (f : AttributeFlags) (localNameLower : Bytes)
+    (haveNamespace : Bool) : ParsedCaseSensitivity :=
+  match f with
+  | .caseSensitive => .explicitCaseSensitive
+  | .asciiCaseInsensitive => .asciiCaseInsensitive
+  | .caseSensitivityDependsOnName =>
+    if !haveNamespace && asciiCaseInsensitiveHtmlAttributes.contains localNameLower then
+      .asciiCaseInsensitiveIfInHtmlElementInHtmlDocument
+    else .caseSensitive
+
+/-- `[name op "value" flag]` from selector text to the lol-html predicate: parser.rs:3168-3201 of
+selectors (lower-cased local name decides the case mode; the component carries `local_name` if it
+is already lower-case, else `local_name_lower`) and ast.rs:131-158 of lol-html (takes `local_name`,
+resp. `local_name_lower`) — in both cases the lower-cased name. -/
+def parseAttributeSelector (localName value : Bytes) (flags : AttributeFlags) (op : Op) :
+    OnAttributesExpr :=
+  let localNameLower := makeAsciiLowercase localName
+  .attributeComparison localNameLower value (flags.toCaseSensitivity localNameLower false) op
+
 end LolHtml.Model.AttrMatch
